@@ -44,17 +44,26 @@ func c09(c *Ctx) (*report.Result, error) {
 
 func checkDeliver(c *Ctx, res *report.Result, f *ssa.Function, name, getChan, fwd string) {
 	rule := "O9.1"
-	// the delivered cell and the closure that sets it
+	// the delivered flag: a bool cell of f captured by a closure that stores true into it
 	var delivered *ssa.Alloc
-	for _, b := range f.Blocks {
-		for _, ins := range b.Instrs {
-			if al, ok := ins.(*ssa.Alloc); ok && al.Comment == "delivered" {
-				delivered = al
+	boundTo := func(fv *ssa.FreeVar) ssa.Value { return freeVarBinding(fv) }
+	for _, a := range flow.AnonFuncsDeep(f) {
+		for _, b := range a.Blocks {
+			for _, ins := range b.Instrs {
+				if st, ok := ins.(*ssa.Store); ok {
+					if fv, ok := st.Addr.(*ssa.FreeVar); ok {
+						if v, isC := flow.ConstBool(st.Val); isC && v {
+							if al, ok := boundTo(fv).(*ssa.Alloc); ok && al.Parent() == f {
+								delivered = al
+							}
+						}
+					}
+				}
 			}
 		}
 	}
 	if delivered == nil {
-		res.Undec(rule, name+": delivered flag", fnPos(c.Prog, f), "no `delivered` variable found")
+		res.Undec(rule, name+": delivered flag", fnPos(c.Prog, f), "no captured bool flag set by the guarded-send closure found")
 		return
 	}
 	// stores of true to the cell: only inside the closure, in the send arm
@@ -68,7 +77,7 @@ func checkDeliver(c *Ctx, res *report.Result, f *ssa.Function, name, getChan, fw
 					continue
 				}
 				fv, ok := st.Addr.(*ssa.FreeVar)
-				if !ok || fv.Name() != "delivered" {
+				if !ok || freeVarBinding(fv) != ssa.Value(delivered) {
 					continue
 				}
 				if v, isC := flow.ConstBool(st.Val); !isC || !v {
